@@ -720,7 +720,7 @@ def signature(case, impl, models):
         return "unclassified"
     if o[0] in "mB" and res in ("frrreload", "startupsave") and "u" in o[2 if o[0] == "m" else 1].split(":")[1]:
         return "restore-failure-not-reported"
-    if o[0] == "B" and res not in ("ok", "bootversion", "nochanges") and ("R" in d or "S" in d):
+    if o[0] == "B" and res not in ("ok", "bootversion", "nochanges") and ("R" in d or "S" in d or "H" in d):
         return "startup-publishes-before-commit"
     if o[0] == "s" and res == "setfail" and "C" in d:
         return "failed-set-leaves-containers"
